@@ -34,7 +34,8 @@ def absBlk (eh : Bool) (w : WalkEnd × Msg.St × List MsgSpec.Field) : Blk :=
   | .verdict (.goAway _) => .listTooLong
   | .verdict (.rst code) => if code == Gen.c_EnhanceYourCalm then .tooLarge else .malformed
   | .verdict .dispatch => .wf
-  | .ok => if eh && !Msg.pseudoOK w.2.1 then .malformed else .wf
+  | .heldTooLong _ => .listTooLong      -- an unfinished field too long to ever fit the list limit: the same reaction
+  | .ok _ => if eh && !Msg.pseudoOK w.2.1 then .malformed else .wf
 
 def absFrame (s : Srv) (fr : Frame) : Fr :=
   let st? := lookup s fr.stream
